@@ -128,11 +128,13 @@ theorem psV5Connect_store (c : C) (p : Pkt) :
   simp only [psV5Connect]; split <;> (try split) <;> (try split) <;>
     simp_all [propsFold_store, clearStoreRelated, initConn, apply_ite C.s, apply_ite St.store]
 
-/-- a successfully sent CONNACK resends: the store keeps exactly the entries that fit -/
+/-- a successfully sent CONNACK with session present resends: the store keeps exactly the entries
+    that fit; without session present it starts a new session: the store is emptied (fix 10ee029) -/
 theorem psV3Connack_store (c : C) (p : Pkt) :
     (psV3Connack c p).s.store = c.s.store ∨
-    (p.rc = some 0 ∧ p ∈ sends (psV3Connack c p).ev ∧
-      (psV3Connack c p).s.store = fits c.cfg.pw (psV3Connack c p).s.mpsSend c.s.store) := by
+    (p.rc = some 0 ∧ p.sp = true ∧ p ∈ sends (psV3Connack c p).ev ∧
+      (psV3Connack c p).s.store = fits c.cfg.pw (psV3Connack c p).s.mpsSend c.s.store) ∨
+    (p.rc = some 0 ∧ p.sp = false ∧ (psV3Connack c p).s.store = []) := by
   simp only [psV3Connack]
   split
   · left; simp
@@ -140,14 +142,19 @@ theorem psV3Connack_store (c : C) (p : Pkt) :
     · left; simp
     · rename_i h
       right
-      refine ⟨by simpa using h, ?_, ?_⟩
-      · simp [sendStored_sends]
-      · simp [sendStored_store]
+      cases hsp : p.sp
+      · right
+        exact ⟨by simpa using h, rfl, by simp [clearStoreRelated]⟩
+      · left
+        refine ⟨by simpa using h, rfl, ?_, ?_⟩
+        · simp [sendStored_sends]
+        · simp [sendStored_store]
 
 theorem psV5Connack_store (c : C) (p : Pkt) :
     (psV5Connack c p).s.store = c.s.store ∨
-    (p.rc = some 0 ∧ p ∈ sends (psV5Connack c p).ev ∧
-      (psV5Connack c p).s.store = fits c.cfg.pw (psV5Connack c p).s.mpsSend c.s.store) := by
+    (p.rc = some 0 ∧ p.sp = true ∧ p ∈ sends (psV5Connack c p).ev ∧
+      (psV5Connack c p).s.store = fits c.cfg.pw (psV5Connack c p).s.mpsSend c.s.store) ∨
+    (p.rc = some 0 ∧ p.sp = false ∧ (psV5Connack c p).s.store = []) := by
   simp only [psV5Connack]
   split
   · left; simp
@@ -158,18 +165,23 @@ theorem psV5Connack_store (c : C) (p : Pkt) :
       · rename_i h
         have h0 : p.rc = some 0 := by simpa using h
         right
-        refine ⟨h0, ?_, ?_⟩
-        · simp [sendStored_sends]
-        · simp [h0, sendStored_store, propsFold_store, propsFold_frame (fun c => c.cfg),
-            propsFold_frame (fun c => c.s.mpsSend)]
+        cases hsp : p.sp
+        · right
+          exact ⟨h0, rfl, by simp [clearStoreRelated]⟩
+        · left
+          refine ⟨h0, rfl, ?_, ?_⟩
+          · simp [sendStored_sends]
+          · simp [h0, sendStored_store, propsFold_store, propsFold_frame (fun c => c.cfg),
+              propsFold_frame (fun c => c.s.mpsSend)]
 
 
 /-- how an entry can leave the store in one `send` call -/
 theorem send_leaves (c : C) (p : Pkt) {e : Nat × Pkt} (h1 : e ∈ c.s.store) (h2 : e ∉ (send c p).s.store) :
     (p.kind = .connect ∧ p.clean = true ∧ (send c p).s.store = []) ∨
-    (p.kind = .connack ∧ p.rc = some 0 ∧ p ∈ sends (send c p).ev ∧
+    (p.kind = .connack ∧ p.rc = some 0 ∧ p.sp = true ∧ p ∈ sends (send c p).ev ∧
       (send c p).s.store = fits c.cfg.pw (send c p).s.mpsSend c.s.store) ∨
-    (p.kind = .publish ∧ p.ver ≠ 4 ∧ errs (send c p).ev ≠ errs c.ev ∧ p.pid = some e.1) := by
+    (p.kind = .publish ∧ p.ver ≠ 4 ∧ errs (send c p).ev ≠ errs c.ev ∧ p.pid = some e.1) ∨
+    (p.kind = .connack ∧ p.rc = some 0 ∧ p.sp = false ∧ (send c p).s.store = []) := by
   by_cases hv : c.s.ver ≠ p.ver
   · have e0 : send c p = c.err eVersionMismatch := by simp [send, hv]
     rw [e0] at h2; exact absurd h1 h2
@@ -189,9 +201,10 @@ theorem send_leaves (c : C) (p : Pkt) {e : Nat × Pkt} (h1 : e ∈ c.s.store) (h
           · rename_i hc; left; simp [hc]
           · exact absurd h1 h2
         case connack =>
-          rcases psV3Connack_store c p with h | ⟨a, b, d⟩
+          rcases psV3Connack_store c p with h | ⟨a, b, d, f⟩ | ⟨a, b, d⟩
           · rw [h] at h2; exact absurd h1 h2
-          · right; left; exact ⟨trivial, a, b, d⟩
+          · right; left; exact ⟨trivial, a, b, d, f⟩
+          · right; right; right; exact ⟨trivial, a, b, d⟩
         case publish => exact absurd (psV3Publish_mono c p h1) h2
         case pubrel => exact absurd (psPubrel_mono c p h1) h2
         all_goals exact absurd (by simpa using h1) h2
@@ -203,13 +216,14 @@ theorem send_leaves (c : C) (p : Pkt) {e : Nat × Pkt} (h1 : e ∈ c.s.store) (h
           · rename_i hc; left; simp [hc]
           · exact absurd h1 h2
         case connack =>
-          rcases psV5Connack_store c p with h | ⟨a, b, d⟩
+          rcases psV5Connack_store c p with h | ⟨a, b, d, f⟩ | ⟨a, b, d⟩
           · rw [h] at h2; exact absurd h1 h2
-          · right; left; exact ⟨trivial, a, b, d⟩
+          · right; left; exact ⟨trivial, a, b, d, f⟩
+          · right; right; right; exact ⟨trivial, a, b, d⟩
         case publish =>
           rcases psV5Publish_keep_or_refuse c p h1 with h | ⟨a, b⟩
           · exact absurd h h2
-          · right; right; exact ⟨trivial, h4, a, b⟩
+          · right; right; left; exact ⟨trivial, h4, a, b⟩
         case pubrel => exact absurd (psPubrel_mono c p h1) h2
         all_goals exact absurd (by simpa using h1) h2
 
